@@ -20,6 +20,24 @@ def cases(tier, mode):
         # preserves that invariant): the invariant assertions of the functional properties are therefore also C11's obligations
         for c in out:
             c.co_owned = r'\.(wf|inv)$|\.(wf|inv)\b'
+    if mode == 'safety':
+        # "every byte it allocated has been freed, whatever happened before" includes calls that failed half-way: the allocation ledger after
+        # an insertion/constructor whose 2nd or 3rd allocation fails (the 1st failing leaves nothing to leak).  Same queries as C15's, taken
+        # over with C11 owning the ledger assertion (their C15.* assertions are left to C15).
+        import re as _re
+        seen = set()
+        for m in fams():
+            for c in m.cases(tier, 'allocfail'):
+                if _re.search(r'\.(PUT|PUTSTR|PUTINT|ADD|PUSH|PUSHSTR|CTOR)\b', c.cid) and _re.search(r'\.(f1|f2)\.', c.cid) and (tier != 'quick' or not _re.search(r'tree\.PUT\.n[456]', c.cid)):
+                    c.cid = 'c11.af.' + c.cid
+                    if c.cid not in seen:
+                        seen.add(c.cid)
+                        out.append(c)
+    if mode == 'allocfail':
+        # C15: "nothing is leaked or freed twice" when an allocation fails - the allocation-ledger assertions (tagged C11.<container>.leak
+        # because C11 owns them on the fault-free paths) are C15's obligations under a failure schedule; C14's own claim is the lock only
+        for c in out:
+            c.co_owned = r'^C11\..*\.leak\b'
     return out
 
 
